@@ -313,7 +313,12 @@ def _guard_for_inline(ctx, f, loop, name):
     return None
 
 
-def r03_batch_cap(ctx):
+def r03_duplicates(ctx):
+    """only clause (ii) of R03: a batch of exclusions names no candidate twice"""
+    r03_batch_cap(ctx, only_dups=True)
+
+
+def r03_batch_cap(ctx, only_dups=False):
     R = 'R03'
     nsites = 0
     for ri in rules(ctx):
@@ -332,7 +337,7 @@ def r03_batch_cap(ctx):
             guard = _guard_for_inline(ctx, f, loop, name) if name else None
             if prods and all(k == 'singleton' for k in kinds):
                 continue
-            for k, p in prods:
+            for k, p in ([] if only_dups else prods):
                 if k in ('empty', 'singleton'):
                     continue
                 if k == 'helper':
